@@ -1,6 +1,7 @@
 package rules
 
 import (
+	"go/types"
 	"go/token"
 	"strings"
 
@@ -19,7 +20,7 @@ func C10(r *core.Run) {
 		"(R10.2) every bolt bucket lookup/creation/deletion by a request-supplied name is dominated by a rejecting comparison with the internal bookkeeping bucket name; " +
 		"(R10.3) every SingleBucketBackend method rejects other bucket names before touching the filesystem; (R10.4) every object-level method of MultiBucketBackend first establishes that the bucket directory exists; " +
 		"(R10.5) the metadata file name contains a hash over the unmodified key (distinct keys ⇒ distinct metadata files); (R10.6) routing passes bucket and key to the handlers unchanged; " +
-		"(R10.7) recursive removal (RemoveAll) is applied only to bucket-level paths, never to a path built from an object key; (R10.8) every bolt record operation is keyed by exactly the addressed name. (R10.9) a bolt write keyed by a key parameter goes to the bucket parameter paired with it; (R10.10) the multi-bucket backend validates bucket names before using them as paths and a listing prefix directory is contained; (R01.6/R01.9) stored metadata maps of other objects are never written."
+		"(R10.7) recursive removal (RemoveAll) is applied only to bucket-level paths, never to a path built from an object key; (R10.8) every bolt record operation is keyed by exactly the addressed name. (R10.9) a bolt write keyed by a key parameter goes to the bucket parameter paired with it; (R10.10) the multi-bucket backend validates bucket names before using them as paths and a listing prefix directory is contained; (R10.11) a file the fs backends name themselves is only ever created exclusively — no internal name shadows a key; (R01.6/R01.9) stored metadata maps of other objects are never written."
 	r.NotDecided = "non-interference as a whole-store statement, percent-encoding, very long segments, what the OS does with odd names, keys that are path-prefixes of other keys on the fs backends (a/b vs a/b/c is refused by the OS, not by a rule)"
 	ctx := oblig.NewCtx(r.P)
 	rule101(r, ctx)
@@ -32,6 +33,7 @@ func C10(r *core.Run) {
 	rule108(r)
 	rule109(r)
 	rule1010(r)
+	rule1011(r)
 	rule016(r, "C10")
 	rule019(r)
 }
@@ -966,4 +968,59 @@ func rule1010(r *core.Run) {
 		}
 	}
 	r.Floor("R10.10", 12, "bucket-name and prefix-directory uses")
+}
+
+// rule1011 — the backend owns no name in a namespace that holds objects.
+func rule1011(r *core.Run) {
+	r.Rule("R10.11", "every file the fs backends create or open for writing under a name of their own choosing (a path that derives from no key / bucket / path parameter of the function or of its callers) is created exclusively (O_CREATE|O_EXCL, no O_TRUNC; never Create): a fixed scratch name opened with truncation in a filesystem that holds objects — the single-bucket backend stores keys at the root of its filesystem — overwrites and then removes the object stored under that key")
+	n := 0
+	const oTRUNC, oCREATE, oEXCL, oWR = 0x200, 0x40, 0x80, 0x3
+	for _, fn := range r.P.FuncsOfPkg("s3afero") {
+		f := fn
+		k := 0
+		core.Instrs(f, func(in ssa.Instruction) {
+			c, ok := in.(ssa.CallInstruction)
+			if !ok || !c.Common().IsInvoke() {
+				return
+			}
+			cn := r.P.CalleeName(c)
+			if cn != "invoke:github.com/spf13/afero.Fs.OpenFile" && cn != "invoke:github.com/spf13/afero.Fs.Create" {
+				return
+			}
+			k++
+			args := c.Common().Args
+			writing := cn == "invoke:github.com/spf13/afero.Fs.Create"
+			excl := false
+			if !writing {
+				if fl, ok := core.ConstInt(args[1]); ok {
+					writing = fl&(oWR|oCREATE|oTRUNC) != 0
+					excl = fl&oEXCL != 0 && fl&oCREATE != 0 && fl&oTRUNC == 0
+				} else {
+					writing = true
+				}
+			}
+			if !writing {
+				return
+			}
+			n++
+			ps := r.P.SliceOf(args[0], core.SliceOpts{Depth: -1, BindParams: true})
+			fromCaller := false
+			for _, l := range ps.LeafList("param:") {
+				for _, v := range ps.LeafVals[l] {
+					if b, ok := v.Type().Underlying().(*types.Basic); ok && b.Kind() == types.String {
+						fromCaller = true
+					}
+					if strings.HasSuffix(v.Type().String(), "metaPath") || strings.Contains(v.Type().String(), "Metadata") {
+						fromCaller = true
+					}
+				}
+			}
+			if ps.HasPrefix("field:s3afero.metaPath") || ps.HasPrefix("field:s3afero.Metadata") {
+				fromCaller = true
+			}
+			r.Check(fromCaller || excl, "R10.11", key(fname(r, f), "own-named file created exclusively", strings.TrimPrefix(cn, "invoke:github.com/spf13/afero.Fs."), sprintf("#%d", k)), pos(r, in), "name from the caller, or O_EXCL without O_TRUNC",
+				"the backend creates or truncates a file under a name of its own choosing without O_EXCL: in a filesystem that holds objects (the single-bucket backend keeps keys at the root) this is some key's file — the object stored there is emptied and, if the name is removed afterwards, deleted")
+		})
+	}
+	r.Floor("R10.11", 3, "writing opens in the fs backends")
 }
